@@ -318,6 +318,36 @@ func L6() []*Grammar {
 			LexDef{"nine", "tok", Seq(Rng('9', 'A'), Lit('z'))}, LexDef{"z2", "tok", Seq(Lit('z'), Lit('z'))})
 		gs = append(gs, &Grammar{Lex: defs})
 	}
+	// many classes in the start state (17, 33, 34, 40, 66, 70: around the capacities a growing slice passes through),
+	// declared in descending and in interleaved order so that new classes are inserted in front of and between
+	// existing ones
+	for _, n := range []int{17, 33, 34, 40, 66, 70} {
+		for _, order := range []string{"desc", "interleaved"} {
+			var defs []LexDef
+			for i := 0; i < n; i++ {
+				k := n - 1 - i
+				if order == "interleaved" {
+					k = (i * 7) % n
+					if n%7 == 0 {
+						k = (i*3 + i/(n/3+1)) % n
+					}
+				}
+				defs = append(defs, LexDef{fmt.Sprintf("c%d", k), "tok", Lit(rune(0x21 + 2*k))})
+			}
+			// distinct runes are guaranteed only if k is a permutation; fall back to descending otherwise
+			seen := map[string]bool{}
+			ok := true
+			for _, d := range defs {
+				if seen[d.Name] {
+					ok = false
+				}
+				seen[d.Name] = true
+			}
+			if ok {
+				gs = append(gs, &Grammar{Lex: defs})
+			}
+		}
+	}
 	// keywords as string literals vs identifiers
 	gs = append(gs, &Grammar{
 		Lex:  []LexDef{{"id", "tok", Seq(Rng('a', 'z'), Rep(Rng('a', 'z')))}, {"!ws", "ign", Lit(' ')}},
